@@ -179,6 +179,7 @@ class ModGen:
     def __init__(self, rng, table, text_safe=True, label_base=0, big=False, canon_labels=False, split_ctx=0.0,
                  temp_names=0.0):
         self.rng, self.table, self.text_safe, self.big = rng, table, text_safe, big
+        self.lowent = False
         self.canon_labels = canon_labels
         self.split_ctx = split_ctx        # probability of a context break (newctx) between two modules
         self.temp_names = temp_names      # probability that a module uses reserved temporary names (.lc<N>, t<N>)
@@ -531,6 +532,12 @@ class ModGen:
             t = parts[0]
             if t.startswith('blk') or t == 'rblk':
                 b = rng.choice(regs['int']) if regs['int'] else '-'
+                # the block size is the displacement of the argument memory and must equal the prototype's; a block
+                # memory whose (signed) displacement is negative is rejected by MIR_finish_func: a prototype with a block
+                # of 2^63 bytes or more cannot be called at all (it used to make the API reject whole - mostly the big -
+                # cases)
+                if int(parts[2]) >= 2**63:
+                    return
                 ops.append('m:%s:%s:%s:-:1:-:-' % (t, parts[2], b))
             else:
                 ops.append(self.operand(fn, t if t in ('f', 'd', 'ld') else 'int', False))
@@ -747,6 +754,18 @@ class ModGen:
             # several KiB without any repetition: literal runs of maximal length in the compression layer
             self.emit('data %s u64 %s' % (self.fresh('rnd'), ' '.join(str(rng.getrandbits(64)) for _ in range(rng.randint(300, 900)))))
             self.emit('data - u8 %s' % ' '.join(str(rng.randint(128, 255)) for _ in range(rng.randint(1100, 2500))))
+            if self.lowent:
+                # a large table of low/medium-entropy values: far more than 65536 mostly-literal/short-match dictionary
+                # entries inside ONE compression buffer and, after the compressor's element pool has run dry, very many
+                # re-occurrences of 4-byte sequences (references found through recycled dictionary elements)
+                # (measured against a compressor that mishandles recycled elements: 24..100 distinct one-byte values
+                # and >= 110000 elements exhaust the pool AND re-reference through it every time; 16 values or two-byte
+                # values often do not)
+                k = rng.choice([24, 32, 48, 64, 100])
+                alpha = rng.sample(range(0, 128), k)
+                self.emit('data %s u8 %s' % (self.fresh('tbl'), ' '.join(str(rng.choice(alpha))
+                                                                           for _ in range(rng.randint(110000, 200000)))))
+                self.lowent = False    # one per case
         for _ in range(n_items):
             k = rng.choice(['import', 'export', 'forward', 'bss', 'data', 'data', 'ref', 'proto', 'func', 'func', 'lref',
                             'string'])
